@@ -26,6 +26,9 @@ type Val struct {
 	Content string     // stream error condition content
 
 	Payload []*PNode // application payload (stanzas: children; errors: application condition)
+	// BorrowedCond: the payload of a stanza error is named like another defined
+	// condition, in the namespace of the defined conditions
+	BorrowedCond bool `json:",omitempty"`
 	// PayForm: how the payload's token reader behaves: "" the tokens stay valid,
 	// "scratch" each token is only valid until the next one is asked for (as
 	// with an *xml.Decoder).
@@ -302,6 +305,16 @@ func genStanzaError(r *rand.Rand, hostile bool, discarded *int) Val {
 	}
 	if r.Intn(3) == 0 {
 		v.Payload = []*PNode{genPNode(r, 1, hostile)}
+		if r.Intn(8) == 0 {
+			// an application payload that borrows the namespace and the name of
+			// another defined condition: the condition is the first one
+			o := stanzaConds[r.Intn(len(stanzaConds))]
+			if o != v.Cond {
+				v.Payload[0].Space, v.Payload[0].Local = "urn:ietf:params:xml:ns:xmpp-stanzas", o
+				v.Payload[0].Attrs = nil
+				v.BorrowedCond = true
+			}
+		}
 	}
 	return v
 }
